@@ -296,6 +296,35 @@ def ob_deform_operator(timeout=60):
     return out
 
 
+def ob_reset(timeout=10):
+    """a deformation is applied to the undeformed code: deform() must reset EVERY lazily cached field (anything a cached property or method guards with
+    `if self._x is None / empty`), either itself or by re-running __init__, before it rebinds the three methods"""
+    m = Module.load('panqec/codes/base/_stabilizer_code.py'); c = m.classes['StabilizerCode']
+    deform, init = c.methods['deform'], c.methods['__init__']
+    cache_fields = set()
+    for name, f in c.methods.items():
+        if name in ('__init__', 'deform'):
+            continue
+        for n in ast.walk(f.node):
+            if isinstance(n, ast.If):
+                # guard mentions self._x and the body assigns self._x
+                guards = {a.attr for a in ast.walk(n.test) if isinstance(a, ast.Attribute) and isinstance(a.value, ast.Name) and a.value.id == 'self' and a.attr.startswith('_')}
+                assigned = {t.attr for b in n.body for a in ast.walk(b) if isinstance(a, ast.Assign) for t in a.targets
+                            if isinstance(t, ast.Attribute) and isinstance(t.value, ast.Name) and t.value.id == 'self'}
+                cache_fields |= guards & assigned
+    def assigned_in(f):
+        return {t.attr for a in ast.walk(f.node) if isinstance(a, (ast.Assign, ast.AnnAssign)) for t in (a.targets if isinstance(a, ast.Assign) else [a.target])
+                if isinstance(t, ast.Attribute) and isinstance(t.value, ast.Name) and t.value.id == 'self' and (not isinstance(a, ast.AnnAssign) or a.value is not None)}
+    reset = assigned_in(deform)
+    calls_init = any(isinstance(n, ast.Call) and ast.unparse(n.func) == 'self.__init__' and ast.unparse(n.args[0]) == '*self.size' for n in ast.walk(deform.node) if isinstance(n, ast.Call) and n.args)
+    if calls_init:
+        reset |= assigned_in(init)
+    missing = sorted(cache_fields - reset)
+    return dict(verdict='refuted' if missing or not cache_fields else 'discharged', model=dict(not_reset=missing) if missing else None, backend='pyvc-structural', seconds=0, kind='state',
+                detail=('cached fields that survive deform(): %s' % missing) if missing else 'all %d cached fields %s are reset by deform()%s' % (len(cache_fields), sorted(cache_fields), ' via __init__(*self.size)' if calls_init else ''),
+                functions=[dict(function=f.ref, sha256_16=f.sha) for f in (deform, init)], transparent=[])
+
+
 def ob_noise(timeout=30):
     """the noise side asks the code for D with the same call shape as the code side: get_deformation(coords[i], name, **kwargs) at qubit i"""
     from props.C07 import sym_probability_distribution
@@ -319,7 +348,8 @@ def ob_noise(timeout=30):
 
 def obligations(tier):
     to = 90 if tier == 'quick' else 400
-    obs = [Ob('C08.lemma', ob_lemma, {}, timeout=30), Ob('C08.noise.callsite', ob_noise, {}, timeout=30, kind='state')]
+    obs = [Ob('C08.lemma', ob_lemma, {}, timeout=30), Ob('C08.noise.callsite', ob_noise, {}, timeout=30, kind='state'),
+           Ob('C08.deform.reset', ob_reset, {}, timeout=30, kind='state', backend='pyvc-structural')]
     for w in ('get_stabilizer', 'get_logicals_x', 'get_logicals_z'):
         obs.append(Ob('C08.image[%s]' % w, ob_image, dict(which=w), timeout=60, kind='state'))
     obs.append(Ob('C08.deform_operator[RotatedToric3DCode]', ob_deform_operator, {}, timeout=to))
@@ -411,7 +441,7 @@ def native_history_contract(name_cls, size, rnd):
     vs = [v for v in deformation_variants(cls) if v[0]]
     if not vs:
         return None
-    touch = ['stabilizer_matrix', 'logicals_x', 'logicals_z', 'Hx', 'd', 'n', 'k', 'x_indices']
+    touch = ['stabilizer_matrix', 'logicals_x', 'logicals_z', 'Hx', 'Hz', 'd', 'n', 'k', 'x_indices', 'z_indices', 'is_css', 'stabilizer_types']
     for _ in range(4):
         seq = [rnd.choice(vs) for _ in range(rnd.randint(2, 3))]
         code = cls(*size)
@@ -426,6 +456,18 @@ def native_history_contract(name_cls, size, rnd):
         if (code.stabilizer_matrix != fresh.stabilizer_matrix).nnz or not np.array_equal(code.logicals_x, fresh.logicals_x) \
                 or not np.array_equal(code.logicals_z, fresh.logicals_z):
             return 'after deform sequence %r the code differs from a fresh object deformed once with %r' % (seq, seq[-1])
+        for attr in ('x_indices', 'z_indices', 'is_css', 'n', 'k', 'd', 'n_stabilizers', 'qubit_coordinates', 'stabilizer_coordinates'):
+            a_, b_ = getattr(code, attr), getattr(fresh, attr)
+            same = (a_ == b_) if isinstance(a_, list) else np.array_equal(np.asarray(a_), np.asarray(b_))
+            if not same:
+                return 'after deform sequence %r (with cached data read in between) %s differs from a fresh object deformed once with %r' % (seq, attr, seq[-1])
+        if fresh.is_css:
+            for attr in ('Hx', 'Hz'):
+                if (getattr(code, attr) != getattr(fresh, attr)).nnz:
+                    return 'after deform sequence %r %s differs from a fresh object' % (seq, attr)
+        e = np.array([rnd.randint(0, 1) for _ in range(2 * fresh.n)], dtype=np.uint8)
+        if not np.array_equal(code.measure_syndrome(e), fresh.measure_syndrome(e)) or not np.array_equal(code.logical_errors(e), fresh.logical_errors(e)):
+            return 'after deform sequence %r syndrome / logical effect differ from a fresh object' % (seq,)
     return None
 
 
